@@ -12,6 +12,15 @@
 namespace SymEngine
 {
 
+// Boolean operators and functions of the grammar only accept boolean operands
+inline RCP<const Boolean> parser_as_boolean(const RCP<const Basic> &x)
+{
+    if (not is_a_Boolean(*x))
+        throw ParseError("Boolean operator or function applied to a "
+                         "non-boolean argument");
+    return rcp_static_cast<const Boolean>(x);
+}
+
 /*
    To Parse (default) constructor is expensive as it creates all the maps and
    tables. If just one expression needs to be parsed, then calling
